@@ -38,6 +38,18 @@ CLAIMED = {
         ref="DESIGN.md §6 C18",
         technique="Lean 4 proof (invariant by induction over operation sequences, refinement) + differential correspondence of op traces",
     ),
+    "C10": dict(
+        text="Lean 4 theorems over the model of flatten_bundle_inst_helper / replace_bundle_conn for bundle definition trees of any "
+        "depth and fan-out: one flattened signal per leaf; each is the image of the leaf at its member path with the leaf's width, "
+        "port visibility iff the instance is a port, and the documented direction rule (parity of flips on the path, role of the "
+        "declaring instance; inout/undirected unchanged); PortDir.flipped (regenerated from the code) is the documented table and an "
+        "involution; connections pair both sides by member path. Tied to the code by exhaustive single-leaf chains and random trees, "
+        "exported and compared on ports (name, width, direction), internal signals and instance connections.",
+        note="Model hand-written after flatten_bundles.py; PortDir.flipped regenerated from /repo each run. The predicate judging the "
+        "implementation uses the path-indexed rule (leafAt/dirRule), not the regenerated table. Name freshness is C05's.",
+        ref="DESIGN.md §6 C10",
+        technique="Lean 4 proof (mutual structural induction over bundle trees, table theorem) + differential correspondence",
+    ),
 }
 NOT_YET = {}
 
